@@ -57,9 +57,7 @@ func c15(r *core.Run) []*core.Violation {
 	cfg.NUsers = 4
 	cfg.VotingPeriod = 0
 	cfg.InitialHeight = []int64{1, 57_590, 115_190, 1_000_003, 2_000_003, 2_000_003}[t.Intn(6)]
-	cfg.RestartPerMille = 8
-	cfg.CrashPerMille = 8
-	b := NewBridge(r, cfg)
+	b := NewBridge(r, cfg) // node faults start after the set-up (a restart would drop the set-up transactions from the mempool)
 	gov := NewGov(b.Sim)
 	admin := b.Users[0]
 	big255 := math.NewIntFromBigInt(new(big.Int).Lsh(big.NewInt(1), 255))
@@ -92,6 +90,7 @@ func c15(r *core.Run) []*core.Violation {
 			core.Harnessf("setup: %v", err)
 		}
 	}
+	b.Sim.Cfg.RestartPerMille, b.Sim.Cfg.CrashPerMille = 8, 8
 	model := map[string]*c15Cfg{}
 	for _, d := range denoms {
 		model[d] = &c15Cfg{taxExempt: map[string]bool{}, limExempt: map[string]bool{}}
